@@ -4,7 +4,11 @@ THEOREMS   lean/KyupyVerif/Props/C15.lean     model level: every shape / pattern
                                               axes, pack/unpack inverse laws, cdiv)
            lean/KyupyVerif/Props/C15Gen.lean  over tables regenerated from the code (render/parse, aliases,
                                               mv_str o mvarray, popcount, bit_in)
+           lean/KyupyVerif/Props/C15Sim.lean  data path: bytes of mv_to_bp = BitVec lanes of C01/C02/C06; pattern strings -> LogicSim
+                                              (m = 2, 4, 8, any P, cycle(k)) -> result strings
 CORR       Lean model (driver commands enc.*) vs the real functions on the same random inputs -> broken_tie
+           datapath_tie: real mvarray -> mv_to_bp -> LogicSim(sims=P, m) -> bp_to_mv -> mv_str vs driver command dp.run (every byte of
+           s[0], s[1] incl. padding lanes and planes >= mdim, and the text), hypotheses wfB / orderOKB per case -> broken_tie
 ORACLE     the property itself on the real functions against ground truth computed here with Python integers
            (documented alias table, (x >> i) & 1, bin(x).count('1')) -> violation + replay
 """
@@ -20,7 +24,9 @@ RULE = ('oracle cases on the real functions: (a) render/parse of the eight value
         'mixed in, ints/bools/None); (c) mv_to_bp/bp_to_mv on random shapes 1-D..5-D incl. empty axes, P = 0..70, values '
         '0..255, C/transposed/strided layouts; (d) unpackbits/packbits for the eight integer dtypes, extremes included, '
         'bit counts below/at/above the width, 0-d..4-d; (e) popcount, cdiv. distinct = distinct (kind, shape/descriptor); '
-        'non-trivial = array with >= 2 different entries (or a string with >= 2 different values)')
+        'non-trivial = array with >= 2 different entries (or a string with >= 2 different values); (f) data path (correspondence only): '
+        'generated combinational and sequential circuits x m in {2,4,8} x {strip_forks} x {c_reuse} x k = 0..3 cycles x P = 1..23 random '
+        'pattern strings: bytes of s[0], s[1] and rendered text of the real LogicSim = model (dp.run)')
 
 # ---- specification constants (transcribed from the docstrings of logic.py:54-80; same as Props/C15Gen.lean)
 RENDER = '0X-1PRFN'
